@@ -94,6 +94,32 @@ def run_checks(limit=None):
                         bad.append(('foreign-order', '%r %s %r did not raise TypeError' % (a, op, foreign)))
                     except TypeError:
                         pass
+    # interfaces created with the legacy doc-as-name form (a name with a space and no doc): Element.__init__ turns the name
+    # into None AFTER InterfaceBase.__init__ ran; their key is (None, module) -- equal keys, equal objects, equal hashes
+    legacy = [InterfaceClass('Marker for things that can be frobnicated', (Interface,), None, None, 'leg.m'),
+              InterfaceClass('Marker for things that cannot', (Interface,), None, None, 'leg.' + 'm'),
+              InterfaceClass('Another marker of module n', (Interface,), None, None, 'leg.n')]
+    for a in legacy:
+        for b in legacy:
+            n += 1
+            eq = key(a) == key(b)
+            if (a == b) is not eq or (a != b) is not (not eq):
+                bad.append(('equality-legacy', '%r == %r is %r, keys %r %r' % (a, b, a == b, key(a), key(b))))
+            if eq and hash(a) != hash(b):
+                bad.append(('hash-legacy', 'interfaces with equal keys %r %r (legacy doc-as-name form) are equal but hash differently' % (key(a), key(b))))
+            if eq and len({a, b}) != 1:
+                bad.append(('set-legacy', 'equal interfaces %r %r do not collapse in a set' % (key(a), key(b))))
+    # a legacy (None-named) interface against normally named ones: unequal keys, so unequal -- no exception (fix 8b7b85d)
+    for a in legacy:
+        for b in ifs[:6]:
+            for x, y in ((a, b), (b, a)):
+                n += 1
+                try:
+                    r = ((x == y), (x != y))
+                except TypeError as e:
+                    r = 'TypeError: %s' % e
+                if r != (False, True):
+                    bad.append(('equality-legacy-vs-named', '(==, !=) of interfaces with keys %r %r is %r, expected (False, True)' % (key(x), key(y), r)))
     # transitivity / totality on triples of a sub-pool, and deterministic sorting
     sub = items[::2]
     for a, b, c in itertools.product(sub, repeat=3):
